@@ -234,7 +234,7 @@ def _ring_of_cells(cells):
 
 @st.composite
 def abstract_mesh(draw, max_j=3, max_i=4, allow_delete=True, allow_merge=True, jitter=None,
-                  min_faces=1, unit_exps=(3, 3, 4, 10)):
+                  min_faces=1, unit_exps=(3, 3, 4, 10), allow_bowtie=True):
     """Planar subdivision built on a node lattice: quads, triangles, merged (polyomino) faces
     and deleted cells.  Returns {"nodes": [[x, y]...], "faces": [[node...]...]} with shuffled
     node and face numbering, random ring start and winding per face."""
@@ -294,6 +294,7 @@ def abstract_mesh(draw, max_j=3, max_i=4, allow_delete=True, allow_merge=True, j
     nodes = [list(lat[j][i]) for (j, i) in node_order]
     faces_lat = draw(st.permutations(faces_lat))
     faces = []
+    quad_flags = [len(ring) == 4 for ring in faces_lat]
     for ring in faces_lat:
         ring = [node_no[n] for n in ring]
         s = draw(st.integers(0, len(ring) - 1))
@@ -301,7 +302,16 @@ def abstract_mesh(draw, max_j=3, max_i=4, allow_delete=True, allow_merge=True, j
         if draw(st.booleans()):
             ring = ring[::-1]
         faces.append(ring)
-    return {"nodes": nodes, "faces": faces}
+    invalid = []
+    if allow_bowtie and len(faces) > 1 and draw(st.integers(0, 2)) == 0:
+        # self-intersecting faces: swapping two neighbouring corners of a convex quad makes a
+        # bow tie, which emsarray must drop (with a warning) - the holes of a mesh
+        spare = draw(st.integers(0, len(faces) - 1))
+        for f, ring in enumerate(faces):
+            if f != spare and quad_flags[f] and draw(st.integers(0, 2)) == 0:
+                ring[1], ring[2] = ring[2], ring[1]
+                invalid.append(f)
+    return {"nodes": nodes, "faces": faces, "invalid": invalid}
 
 
 UGRID_NAMESETS = [
@@ -362,7 +372,7 @@ def edge_numbering(draw, faces):
 def ugrid_geom(draw, mesh=None, enc=None, **mesh_kwargs):
     m = draw(abstract_mesh(**mesh_kwargs)) if mesh is None else mesh
     e = draw(ugrid_encoding()) if enc is None else enc
-    return {"nodes": m["nodes"], "faces": m["faces"],
+    return {"nodes": m["nodes"], "faces": m["faces"], "invalid": list(m.get("invalid", [])),
             "edges": draw(edge_numbering(m["faces"])), "enc": e}
 
 
@@ -439,7 +449,7 @@ def geometry(draw, conv, **kw):
     if conv == "ugrid":
         return draw(ugrid_geom(**{k: v for k, v in kw.items()
                                   if k in ("mesh", "enc", "max_j", "max_i", "allow_delete",
-                                           "allow_merge", "jitter", "min_faces")}))
+                                           "allow_merge", "jitter", "min_faces", "allow_bowtie")}))
     raise ValueError(conv)
 
 
